@@ -3,6 +3,7 @@ import PlcProofs.Lemmas.MirrorExpr
 import PlcProofs.Lemmas.MirrorStmt
 import PlcProofs.Lemmas.MirrorLib
 import PlcProofs.Lemmas.MirrorVars
+import PlcProofs.Lemmas.MirrorFb
 import PlcModel.Parse.Pou
 
 /-!
@@ -37,7 +38,8 @@ What is proved here:
   behind the model's `parse_program`) reads the token list of every library made of programs
   `PROGRAM name statements END_PROGRAM` (no variable blocks; the statements above) back to exactly the library that was
   written — the programs in source order, each with its name and its statements; the whole input is consumed;
-  `mirror_library_roundtrip_vars` adds a VAR block of elementary-typed variables to each program;
+  `mirror_library_roundtrip_vars` adds a VAR block of elementary-typed variables to each program,
+  `mirror_library_roundtrip_pous` function blocks of the same shape, mixed with the programs in any order;
 
 The executable mirror of the whole grammar (`PlcModel/Parse/*.lean`) is tied to `parse_program` by
 the correspondence check (every fixture, every production of the reference grammar, every ordered
@@ -144,6 +146,13 @@ theorem mirror_library_roundtrip_vars (ps : List MX.AnyProg) (h : ∀ p ∈ ps, 
     Parse.library (ps.flatMap MX.AnyProg.toks) =
       some (.n "Library" [("elements", .l (ps.map fun p => Sx.t "ProgramDeclaration" [p.sx]))]) :=
   MX.library_reads_any ps h
+
+/-- … and for libraries that mix programs and function blocks (`FUNCTION_BLOCK name [VAR … END_VAR] statements
+END_FUNCTION_BLOCK`) in any order and number: `Parse.library` returns the declarations in source order, each of its
+kind, nothing dropped, duplicated or reordered. -/
+theorem mirror_library_roundtrip_pous (ps : List MX.Pou) (h : ∀ p ∈ ps, p.WF) :
+    Parse.library (ps.flatMap MX.Pou.toks) = some (.n "Library" [("elements", .l (ps.map MX.Pou.elem))]) :=
+  MX.library_reads_pous ps h
 
 /-- non-vacuity: `n : INT;` meets `VarD.WF` -/
 example : (MX.VarD.mk ⟨false, "Identifier", 0, 0, 0, 0, ['n']⟩ ⟨false, "Colon", 0, 0, 0, 0, [':']⟩
